@@ -55,6 +55,16 @@ CHECKS = {
         note='Faults injected through open() (root ignores permission bits); crash between truncate and write is model-only; in-process runs.',
         technique='TLA+ (TLC) model checking with fault enumeration + trace validation of recorded CLI runs',
         design_ref='3.7, 5 (C15)'),
+    'C16': dict(
+        specs='EncodingS.tla, Encoding.tla, Trace_Encoding.tla',
+        text='All 672 in-language configurations (text/bytes x BOM x six coding cookies x LF/CRLF/CR x seven first-line shapes x preserve) are '
+             'enumerated by TLC; the shebang capture model is checked against the expectation exhaustively; every configuration x body program '
+             'is run through the real minify() on 3 (quick) / 9 (thorough) interpreters and the real CLI, and TLC judges strict tree identity, '
+             'first-line rule, bytes/text agreement and CLI bytes.',
+        note='Codecs, BOM/cookie detection and newline normalisation are CPython\'s; tree identity is computed by the interpreter under test; '
+             'BOM+shebang unconstrained.',
+        technique='TLA+ (TLC) enumeration of the encoding configuration space + trace validation of observed minify()/CLI results',
+        design_ref='3.7, 5 (C16)'),
     'C08': dict(
         specs='Pipeline.tla, PipelineS.tla, Trace_Pipeline.tla',
         text='TLC exhaustively checks the implementation-shaped pipeline model against the envelope (all 2^14 gating option sets x taint x '
